@@ -3,7 +3,7 @@
 //! Correspondence (Lean `Model/Fmt.lean`): integer literal printing in every `IntFormat`, string
 //! literal printing / unescaping, the literal fragment of the grammar (`parse::<Expr>` on
 //! literal-like texts) and the token level of the lexer.  Expression layer (Lean
-//! `Model/FmtExpr.lean`): see `c08_expr.rs`.
+//! `Model/FmtExpr.lean`): see `c08_expr.rs`.  Statement layer (Lean `Model/FmtStmt.lean`): see `c08_stmt.rs`.
 //! Search: ASTs from (1) grammar-directed generated source text through the real parser and
 //! (2) the decompiler (generated + bundled binaries, random options, user intrinsics) are printed
 //! at many widths, parsed back, compared structurally, printed again.
@@ -1004,14 +1004,15 @@ pub(super) fn lex_text_ok(t: &str) -> bool { !t.contains("//") && !t.contains("/
 impl Prop for C08 {
     fn id(&self) -> &'static str { "C08" }
     fn relation(&self) -> &'static str {
-        "text of fmt::stringify on ast::Expr::LitInt in every IntFormat == Lean `Fmt.printInt`; text of ast::LitString == `Fmt.escapeString`; parse::<LitString> == `Fmt.parseStringLiteral` after `Fmt.lex`; parse::<Expr> of literal-like text (value after sign folding / bad integer literal / other) == `Fmt.evalLiteral`; token stream of parse::lexer::Lexer == `Fmt.lex`; text of stringify_with(nested meta arrays, max_columns(w)) == `Fmt.render w`; EXPRESSION LAYER (Model/FmtExpr.lean): text of stringify_with(ast::Expr, unlimited width) == `FmtExpr.printText`; text of stringify_with(ast::Expr, max_columns(w)) == `FmtExpr.renderExpr w` (inline/block argument lists); real lexer on that text (trailing commas dropped) == the tokens `FmtExpr.printExpr` (hypothesis LexOK of expr_print_parse_text) where `NoGlue` holds and `Fmt.lex (printText e)` elsewhere; parse::<ast::Expr>(text) as canonical tree or reject == `FmtExpr.parseText`"
+        "text of fmt::stringify on ast::Expr::LitInt in every IntFormat == Lean `Fmt.printInt`; text of ast::LitString == `Fmt.escapeString`; parse::<LitString> == `Fmt.parseStringLiteral` after `Fmt.lex`; parse::<Expr> of literal-like text (value after sign folding / bad integer literal / other) == `Fmt.evalLiteral`; token stream of parse::lexer::Lexer == `Fmt.lex`; text of stringify_with(nested meta arrays, max_columns(w)) == `Fmt.render w`; EXPRESSION LAYER (Model/FmtExpr.lean): text of stringify_with(ast::Expr, unlimited width) == `FmtExpr.printText`; text of stringify_with(ast::Expr, max_columns(w)) == `FmtExpr.renderExpr w` (inline/block argument lists); real lexer on that text (trailing commas dropped) == the tokens `FmtExpr.printExpr` (hypothesis LexOK of expr_print_parse_text) where `NoGlue` holds and `Fmt.lex (printText e)` elsewhere; parse::<ast::Expr>(text) as canonical tree or reject == `FmtExpr.parseText`; STATEMENT LAYER (Model/FmtStmt.lean): text of stringify_with(ast::Stmt / ast::Block, max_columns(w)) at unlimited and narrow widths, or the formatter's label assertion, == `FmtStmt.renderStmt w` / `renderBlock w`; real lexer on that text (trailing commas dropped) == the tokens `FmtStmt.printStmt` where `OKS` holds and `Fmt.lex` of the model's text elsewhere; `<ast::Stmt / ast::Block as parse::Parse>::parse(text)` (the grammar alone) as canonical tree or reject == `FmtStmt.parseStmtText` / `parseBlockText`"
     }
     fn rule(&self) -> &'static str {
-        "model-compared: every (signed, radix) x boundary and random i32; strings over NUL, quotes, backslashes, CR/LF, controls, multi-byte; literal texts (dec/hex/bin, prefixes, overflow, signs, glue shapes); random token soups and printed scripts for the lexer; nested lists of atoms of random shapes at widths 1..200 for the inline/block layout; expression ASTs (all 19 binary and 14 unary operators, ternary, difficulty switches with holes, calls with pseudo-args, xcrement, sigils, REG[n], enum constants, label properties, every int format, floats incl. -0/inf/nan, strings with escapes; with and without the glue shapes; also shapes only the formatter accepts) printed at unlimited and narrow widths, their printed text parsed, the parsed tree printed again; every ordered pair of binary operators in both groupings and as bare `a op1 b op2 c`; associativity chains; ternary-vs-switch texts; each prefix operator in front of every kind of atom with and without a space; grammar-directed expression source (all literal spellings, spacing, trailing commas); token soups; printed text with one token dropped/duplicated/swapped. Search: grammar-directed generated source text over the full item/statement/expression/meta grammar (all operators, casts, sigils, ternary, difficulty switches with holes, pseudo-args, labels, gotos with times, label properties, loops, conditionals, interrupt labels, const items, nested meta, string escapes, multi-byte text, extreme ints in dec/hex/bin, extreme floats) parsed by the real parser; decompiler output of compiled generated sources of every format/game and of all bundled binaries under random decompile options (incl. --show-instr-offsets), and of TH06 ECL with user unary/binary intrinsics on immediates; each AST printed at widths {1,5,17,40,80,99,200} (thorough: 1..200), parsed back (must parse), compared structurally after sign folding with formatter hints ignored (must be equal), printed again (must be the same text); float literals over all exponents x mantissa {0,1,mid,max}, subnormals, +-0, +-inf and random bit patterns must read back with the same bits, NaN payloads reported separately. Shapes of the known defects (unary operator glued to its operand, negative literal gaining parentheses, negative meta key) are confined to dedicated streams and classified by inspecting the AST. non-trivial = the source parses / the binary decompiles; distinct by case text"
+        "model-compared: every (signed, radix) x boundary and random i32; strings over NUL, quotes, backslashes, CR/LF, controls, multi-byte; literal texts (dec/hex/bin, prefixes, overflow, signs, glue shapes); random token soups and printed scripts for the lexer; nested lists of atoms of random shapes at widths 1..200 for the inline/block layout; expression ASTs (all 19 binary and 14 unary operators, ternary, difficulty switches with holes, calls with pseudo-args, xcrement, sigils, REG[n], enum constants, label properties, every int format, floats incl. -0/inf/nan, strings with escapes; with and without the glue shapes; also shapes only the formatter accepts) printed at unlimited and narrow widths, their printed text parsed, the parsed tree printed again; every ordered pair of binary operators in both groupings and as bare `a op1 b op2 c`; associativity chains; ternary-vs-switch texts; each prefix operator in front of every kind of atom with and without a space; grammar-directed expression source (all literal spellings, spacing, trailing commas); token soups; printed text with one token dropped/duplicated/swapped; statement ASTs (every statement kind alone, under a difficulty label, before / after / between every kind of label, in every block position incl. nested ones, every assign-op x every variable spelling, time labels / goto times / relative deltas over boundary and random i32, interrupt and relative labels over expression shapes incl. `+ ++x` and calls that break the line, times with and without counter, shapes only the formatter accepts, random statements and blocks inside and outside the fragment of the theorems) printed at unlimited and narrow widths, their text parsed, the parsed tree printed again; 385 hand-written statement texts (else binding, loops, jumps, labels, difficulty labels, blocks, assignments, declarations, explicit sub calls, misplaced keywords) alone / in a block / between statements; every lexer keyword in 13 statement positions; printed statements with one token dropped/duplicated/swapped/replaced; token soups over the statement vocabulary. Search: grammar-directed generated source text over the full item/statement/expression/meta grammar (all operators, casts, sigils, ternary, difficulty switches with holes, pseudo-args, labels, gotos with times, label properties, loops, conditionals, interrupt labels, const items, nested meta, string escapes, multi-byte text, extreme ints in dec/hex/bin, extreme floats) parsed by the real parser; decompiler output of compiled generated sources of every format/game and of all bundled binaries under random decompile options (incl. --show-instr-offsets), and of TH06 ECL with user unary/binary intrinsics on immediates; each AST printed at widths {1,5,17,40,80,99,200} (thorough: 1..200), parsed back (must parse), compared structurally after sign folding with formatter hints ignored (must be equal), printed again (must be the same text); float literals over all exponents x mantissa {0,1,mid,max}, subnormals, +-0, +-inf and random bit patterns must read back with the same bits, NaN payloads reported separately. Shapes of the known defects (unary operator glued to its operand, negative literal gaining parentheses, negative meta key) are confined to dedicated streams and classified by inspecting the AST. non-trivial = the source parses / the binary decompiles; distinct by case text"
     }
     fn theorems(&self) -> &'static [&'static str] {
         &["TruthModel.C08.int_print_parse", "TruthModel.C08.string_escape_roundtrip", "TruthModel.C08.string_print_lex_parse", "TruthModel.C08.printInt_head_minus_iff", "TruthModel.C08.unary_glue_minus", "TruthModel.C08.unary_glue_not", "TruthModel.C08.layout_tokens",
-          "TruthModel.C08.expr_print_parse", "TruthModel.C08.expr_print_parse_sup", "TruthModel.C08.expr_print_parse_text", "TruthModel.C08.expr_print_idempotent", "TruthModel.C08.expr_print_parse_print", "TruthModel.C08.expr_layout_tokens", "TruthModel.C08.expr_layout_printExpr", "TruthModel.C08.glue_sites_fail"]
+          "TruthModel.C08.expr_print_parse", "TruthModel.C08.expr_print_parse_sup", "TruthModel.C08.expr_print_parse_text", "TruthModel.C08.expr_print_idempotent", "TruthModel.C08.expr_print_parse_print", "TruthModel.C08.expr_layout_tokens", "TruthModel.C08.expr_layout_printExpr", "TruthModel.C08.glue_sites_fail",
+          "TruthModel.C08.stmt_print_parse", "TruthModel.C08.block_print_parse", "TruthModel.C08.stmt_print_parse_text", "TruthModel.C08.stmt_print_idempotent", "TruthModel.C08.stmt_print_parse_print", "TruthModel.C08.stmt_layout_tokens", "TruthModel.C08.block_layout_tokens", "TruthModel.C08.stmt_print_parse_at_width", "TruthModel.C08.stmt_print_parse_every_width", "TruthModel.C08.rel_label_plus_glue", "TruthModel.C08.label_break_panics"]
     }
     fn timeout_secs(&self) -> u64 { 120 }
 
@@ -1147,11 +1148,15 @@ impl Prop for C08 {
             let maps = vec![INTRINSIC_MAP_ECL.to_string()];
             out.push(Case::search(Sexp::app("dec", vec![Sexp::atom("ecl"), Sexp::atom("th06"), Sexp::list(maps.iter().map(|m| Sexp::str(m.clone())).collect()), Sexp::int(2), widths_sexp(&[80]), Sexp::str(nan_blob_source(b))])).tag("dec-nan-payload"));
         }
+
+        // ---- model-compared: the statement layer (printer, layout, parser); last, so that the streams above are unchanged
+        super::c08_stmt::gen(tier, rng, &mut out);
         out
     }
 
     fn eval(&self, case: &Sexp) -> Sexp {
         if let Some(r) = super::c08_expr::eval(case) { return r; }
+        if let Some(r) = super::c08_stmt::eval(case) { return r; }
         let a = case.args();
         match case.head() {
             Some("pint") => {
